@@ -12,7 +12,7 @@ namespace etl {
 /// specializations R1 and R2.
 /// \ingroup ratio
 template <typename R1, typename R2>
-using ratio_multiply = ratio<R1::num * R2::num, R1::den * R2::den>;
+using ratio_multiply = typename ratio<R1::num * R2::num, R1::den * R2::den>::type;
 
 } // namespace etl
 
